@@ -192,10 +192,224 @@ theorem negotiate_version (c : Client) (s : Server) (o : Outcome) (h : negotiate
         all_goals first | (simp at h; done) | (simp only [Result.done.injEq] at h; rw [← h])
       rw [this]; exact hmax
 
+/-! ### resumption across configuration changes
+
+  `connect` is `negotiate` with the resumption decision of `loadSession` / `checkForResumption` in place; the client's
+  cache content and BOTH configurations are arbitrary (in particular: changed since the session was established). -/
+
+/-- the client presents a session only if its CURRENT configuration has the cache, still supports the session's
+    version and still offers its suite (TLS 1.3: some suite with the same hash) -/
+theorem loadSession_some (cv offer : List Nat) (u : Bool) (cache : Option Sess) (se : Sess)
+    (h : loadSession cv offer u cache = some se) :
+    u = true ∧ cache = some se ∧ se.vers ∈ cv ∧
+    (se.vers ≠ VersionTLS13 → se.suite ∈ offer) ∧
+    (se.vers = VersionTLS13 → ∃ id ∈ offer, isTLS13Suite id = true ∧ sameHash id se.suite = true) := by
+  unfold loadSession at h
+  cases u with
+  | false => simp at h
+  | true =>
+    cases cache with
+    | none => simp at h
+    | some s0 =>
+      simp only [Bool.not_true, Bool.false_eq_true, if_false] at h
+      split at h
+      · simp at h
+      · rename_i hv
+        have hv' : s0.vers ∈ cv := by simpa using hv
+        split at h
+        · rename_i hne
+          have hne' : s0.vers ≠ VersionTLS13 := by simpa using hne
+          split at h
+          · rename_i hc
+            simp only [Option.some.injEq] at h
+            subst h
+            simp only [Bool.and_eq_true] at hc
+            exact ⟨rfl, rfl, hv', fun _ => by simpa using hc.1, fun he => absurd he hne'⟩
+          · simp at h
+        · rename_i h13
+          have h13' : s0.vers = VersionTLS13 := by simpa using h13
+          split at h
+          · simp at h
+          · split at h
+            · rename_i hany
+              simp only [Option.some.injEq] at h
+              subst h
+              refine ⟨rfl, rfl, hv', fun hne => absurd h13' hne, fun _ => ?_⟩
+              rw [List.any_eq_true] at hany
+              obtain ⟨id, hid, hp⟩ := hany
+              simp only [Bool.and_eq_true] at hp
+              exact ⟨id, hid, hp.1, hp.2⟩
+            · simp at h
+
+/-- **TLS ≤ 1.2 server**: a ticket is resumed only when it opens under a key the server lists NOW, for the version
+    negotiated NOW, with a suite the client offers NOW and the server's CURRENT configuration enables and can use with
+    its CURRENT key (seeded defect: the second list was the client's) -/
+theorem checkResume12_sound (v : Nat) (offer : List Nat) (srv : Option (List Nat)) (f : Facts)
+    (tk : Option (List Nat)) (p : Option Sess) (r : SuiteRow) (old : Bool)
+    (h : checkResume12 v offer srv f tk p = some (r, old)) :
+    ∃ se ks, p = some se ∧ tk = some ks ∧ se.key ∈ ks ∧ se.vers = v ∧ v ≠ VersionTLS13 ∧ r.id = se.suite ∧
+      se.suite ∈ offer ∧ se.suite ∈ srv.getD defaultCipherSuites ∧
+      lookup implemented se.suite = some r ∧ cipherSuiteOk f r = true ∧ old = (ks.head? != some se.key) := by
+  unfold checkResume12 at h
+  split at h
+  · rename_i ks se
+    split at h
+    · simp at h
+    · rename_i h13
+      split at h
+      · simp at h
+      · rename_i hk
+        split at h
+        · simp at h
+        · rename_i hv
+          split at h
+          · simp at h
+          · rename_i ho
+            split at h
+            · simp at h
+            · rename_i r' hsel
+              simp only [Option.some.injEq, Prod.mk.injEq] at h
+              obtain ⟨hr, hold⟩ := h
+              subst hr
+              obtain ⟨pre, post, he, h1, h2, h3, _⟩ := select_first_qualifying _ _ _ _ hsel
+              have hid : r'.id = se.suite := by
+                cases pre with
+                | nil => simp at he; exact he.1.symm
+                | cons a t =>
+                  simp only [List.cons_append, List.cons.injEq] at he
+                  have := congrArg List.length he.2
+                  simp at this
+              have hv' : v = se.vers := by simpa using hv
+              refine ⟨se, ks, rfl, rfl, by simpa using hk, hv'.symm, ?_, hid, by simpa using ho, ?_, ?_, h2, hold.symm⟩
+              · intro h; rw [hv'] at h; simp [h] at h13
+              · rw [← hid]; simpa using h3
+              · rw [← hid]; exact h1
+  · simp at h
+
+/-- **TLS 1.3 server**: a PSK is accepted only when it opens under a current key and was issued under a suite with
+    the hash of the suite selected NOW (seeded defect: hash comparison dropped) -/
+theorem checkResume13_sound (suite : Nat) (m : Bool) (tk : Option (List Nat)) (p : Option Sess)
+    (h : checkResume13 suite m tk p = true) :
+    ∃ se ks, p = some se ∧ tk = some ks ∧ m = true ∧ se.key ∈ ks ∧ se.vers = VersionTLS13 ∧ sameHash se.suite suite = true := by
+  unfold checkResume13 at h
+  split at h
+  · rename_i ks se
+    simp only [Bool.and_eq_true] at h
+    exact ⟨se, ks, rfl, rfl, h.1.1.1.1, by simpa using h.1.1.2, by simpa using h.1.1.1.2, h.2⟩
+  · simp at h
+
+/-- without a presented session (no cache in the client's configuration, empty cache, or a session the client's
+    current configuration no longer fits) the connection is exactly the full negotiation -/
+theorem connect_not_presented (k : Conn) (cache : Option Sess)
+    (h : loadSession (configVersions supportedVersions k.c.minV k.c.maxV)
+          (clientOffer (configVersions supportedVersions k.c.minV k.c.maxV) k.c.suites k.c.force) k.useCache cache = none) :
+    (connect k cache).res = negotiate k.c k.s ∧ (connect k cache).resumed = false := by
+  have h12 : ∀ v offer srv f tk, checkResume12 v offer srv f tk none = none := by
+    intro v offer srv f tk; unfold checkResume12; split <;> simp_all
+  have h13 : ∀ suite m tk, checkResume13 suite m tk none = false := by
+    intro suite m tk; unfold checkResume13; split <;> simp_all
+  unfold connect negotiate
+  simp only [h, h12, h13]
+  repeat' split
+  all_goals simp [failedWith_res, completed_res]
+
+/-- **fallback, never failure**: whatever the client's cache holds, if the two CURRENT configurations can complete a
+    full handshake then the connection completes, at the same (highest shared) version — a session that cannot be
+    resumed costs a full handshake, not the connection -/
+theorem connect_never_blocks (k : Conn) (cache : Option Sess) (o : Outcome) (h : negotiate k.c k.s = .done o) :
+    ∃ o', (connect k cache).res = .done o' ∧ o'.vers = o.vers ∧ o'.alpn = o.alpn ∧ o'.canary = o.canary ∧
+      ((connect k cache).resumed = false → o' = o) := by
+  unfold negotiate at h
+  unfold connect
+  simp only at h ⊢
+  repeat' split at h
+  all_goals first
+    | (simp at h; done)
+    | (simp only [Result.done.injEq] at h
+       subst h
+       simp only [*, if_true, if_false, Bool.false_eq_true]
+       first
+         | exact ⟨_, (completed_res _ _ _ _ _).1, rfl, rfl, rfl, fun _ => rfl⟩
+         | (split
+            · try simp only [*, if_true, if_false, Bool.false_eq_true]
+              refine ⟨_, (completed_res _ _ _ _ _).1, rfl, rfl, rfl, fun hr => ?_⟩
+              rw [(completed_res _ _ _ _ _).2] at hr
+              simp at hr
+            · try simp only [*, if_true, if_false, Bool.false_eq_true]
+              exact ⟨_, (completed_res _ _ _ _ _).1, rfl, rfl, rfl, fun _ => rfl⟩))
+
+/-- **a resumed connection is consistent with BOTH current configurations and with the original session**: if the
+    connection resumes then it completes, the client's current configuration uses the cache, the cached session was
+    sealed under a key the server lists now, it has the version negotiated now, and
+    * TLS ≤ 1.2: its suite is the connection's suite, the client offers it now and the server's current configuration
+      enables it;
+    * TLS 1.3: it was issued under a suite with the same hash as the suite selected now. -/
+theorem connect_resumed_sound (k : Conn) (cache : Option Sess) (h : (connect k cache).resumed = true) :
+    ∃ o se ks, (connect k cache).res = .done o ∧ cache = some se ∧ k.useCache = true ∧ k.tkeys = some ks ∧ se.key ∈ ks ∧
+      se.vers = o.vers ∧
+      (if o.vers = VersionTLS13 then sameHash se.suite o.suite = true
+       else se.suite = o.suite ∧
+            o.suite ∈ clientOffer (configVersions supportedVersions k.c.minV k.c.maxV) k.c.suites k.c.force ∧
+            o.suite ∈ k.s.suites.getD defaultCipherSuites) := by
+  generalize hc : connect k cache = out at h ⊢
+  unfold connect at hc
+  simp only at hc
+  repeat' split at hc
+  all_goals subst hc
+  all_goals first
+    | (simp [(failedWith_res _ _).2] at h; done)
+    | (rw [(completed_res _ _ _ _ _).2] at h; simp at h; done)
+    | skip
+  all_goals first
+    | (rw [(completed_res _ _ _ _ _).2] at h
+       obtain ⟨se, ks, hp, htk, _, hk, hv, hh⟩ := checkResume13_sound _ _ _ _ h
+       obtain ⟨hu, hcache, _, _, _⟩ := loadSession_some _ _ _ _ _ hp
+       refine ⟨_, se, ks, (completed_res _ _ _ _ _).1, hcache, hu, htk, hk, ?_, ?_⟩
+       · simp_all
+       · simp_all)
+    | (obtain ⟨se, ks, hp, htk, hk, hv, hne, hid, hoff, hsrv, _, _, _⟩ := checkResume12_sound _ _ _ _ _ _ _ _ (by assumption)
+       obtain ⟨hu, hcache, _, _, _⟩ := loadSession_some _ _ _ _ _ hp
+       refine ⟨_, se, ks, (completed_res _ _ _ _ _).1, hcache, hu, htk, hk, hv, ?_⟩
+       simp only [if_neg hne]
+       rw [hid]
+       exact ⟨rfl, hoff, hsrv⟩)
+
 /-! ### non-vacuity -/
 example : negotiate { minV := 0, maxV := 771, suites := some [50, 47], force := true, curves := none, alpn := [] }
     { minV := 0, maxV := 0, suites := none, prefer := false, curves := none, alpn := [], key := .rsa, rand := .none }
     = .done { vers := 771, suite := 47, alpn := none, canary := .c12 } := by decide
+
+/-- a TLS 1.2 client (cache on) against a server with ticket key 0 -/
+def exConn (cs ss : List Nat) (tk : Option (List Nat)) : Conn :=
+  { c := { minV := 0, maxV := 771, suites := some cs, force := false, curves := none, alpn := [] },
+    s := { minV := 0, maxV := 771, suites := some ss, prefer := false, curves := none, alpn := [], key := .rsa, rand := .none },
+    useCache := true, tkeys := tk }
+def exConn13 (cs : List Nat) : Conn :=
+  { c := { minV := 0, maxV := 0, suites := some cs, force := false, curves := none, alpn := [] },
+    s := { minV := 0, maxV := 0, suites := none, prefer := false, curves := none, alpn := [], key := .rsa, rand := .none },
+    useCache := true, tkeys := some [0] }
+-- unchanged configurations: the second connection resumes (hypothesis of `connect_resumed_sound` is satisfiable)
+example : (runSeq none [exConn [49199, 47] [49199, 47] (some [0]), exConn [49199, 47] [49199, 47] (some [0])]).map
+    (fun o => (o.res, o.resumed, o.ev)) =
+    [(.done { vers := 771, suite := 49199, alpn := none, canary := .none }, false, .put),
+     (.done { vers := 771, suite := 49199, alpn := none, canary := .none }, true, .keep)] := by decide
+-- the server's configuration drops the session's suite: full handshake with the remaining suite, not a failure
+example : (runSeq none [exConn [49199, 47] [49199, 47] (some [0]), exConn [49199, 47] [47] (some [0])]).map
+    (fun o => (o.res, o.resumed, o.ev)) =
+    [(.done { vers := 771, suite := 49199, alpn := none, canary := .none }, false, .put),
+     (.done { vers := 771, suite := 47, alpn := none, canary := .none }, false, .put)] := by decide
+-- rotated ticket keys: resumed under the old key, re-issued under the new one
+example : (runSeq none [exConn [47] [47] (some [0]), exConn [47] [47] (some [1, 0]), exConn [47] [47] (some [1])]).map
+    (fun o => (o.resumed, o.ev)) = [(false, .put), (true, .put), (true, .keep)] := by decide
+-- TLS 1.3: the client now puts a SHA-384 suite first; the SHA-256 PSK is skipped and a full handshake follows
+example : (runSeq none [exConn13 [4865], exConn13 [4866, 4865], exConn13 [4866, 4865]]).map
+    (fun o => (o.res, o.resumed)) =
+    [(.done { vers := 772, suite := 4865, alpn := none, canary := .none }, false),
+     (.done { vers := 772, suite := 4866, alpn := none, canary := .none }, false),
+     (.done { vers := 772, suite := 4866, alpn := none, canary := .none }, true)] := by decide
+example : checkResume13 4866 true (some [0]) (some { vers := 772, suite := 4866, key := 0 }) = true := by decide
+example : (checkResume12 771 [47] (some [47]) (facts 771 .rsa true) (some [1, 0]) (some { vers := 771, suite := 47, key := 0 })).isSome = true := by decide
+example : (loadSession [772, 771] [47, 4865] true (some { vers := 772, suite := 4867, key := 0 })).isSome = true := by decide
 example : mutualVersion (configVersions supportedVersions 770 0) (configVersions supportedVersions 0 771) = some 771 := by decide
 
 end ZV.C24
